@@ -87,9 +87,9 @@ def agl_classify(ck, name, real, intended, ascoded, fired, origin):
     if real == ascoded and fired:
         bad = False
         for d in fired:
-            bad |= ck.violation("dev:" + d, "name2unicode(%r) gives %s, the AGL algorithm gives %s" % (name, real, intended), case)
+            bad |= report(ck, "dev:" + d, "name2unicode(%r) gives %s, the AGL algorithm gives %s" % (name, real, intended), case)
         return bad
-    return ck.violation("name2unicode:%s->%s" % (intended[0], real[0]),
+    return report(ck, "name2unicode:%s->%s" % (intended[0], real[0]),
                         "name2unicode(%r) gives %s; AGL (and the model of the code) give %s" % (name, real, intended), case)
 
 
@@ -114,7 +114,7 @@ def direction_a_agl(ck, jobs, futures):
         ck.add_tlc(res, "AGL %s: names %s{%s}^<=%d (%d glyph-list names)" % (label, prefix, alphabet, maxlen, nlist))
         if not res.ok:
             st = res.error_trace[-1][1] if res.error_trace else {}
-            ck.violation("model:AGL:" + str(res.violated),
+            report(ck, "model:AGL:" + str(res.violated),
                          "TLC: %s violated on AGL.tla for name %s" % (res.violated, st.get("name", "?")),
                          {"tlc": res.error_text[:3000]})
             continue
@@ -135,7 +135,7 @@ def direction_a_agl(ck, jobs, futures):
                     hits[d] = hits.get(d, 0) + 1
                 nontriv = intended[0] == "ok" or bool(r["f"])
                 ck.case(1, ("N", name) if nontriv else None)
-                if n % 40000 == 7 or (r["f"] and hits[r["f"][0]] == 1):
+                if (n % 40000 == 7 or (r["f"] and hits[r["f"][0]] == 1)) and len(ck.samples) < 3:
                     ck.sample({"glyph_name": name, "agl_model": intended, "as_coded_model": ascoded, "name2unicode": real})
         os.remove(emit)
         if n != res.emitted or n == 0:
@@ -472,7 +472,7 @@ def direction_a_fonts(ck, dev, jobs, futures, ppool):
         ck.add_tlc(res, "SimpleFont %s (MaxDiff=%d, window at byte %d)" % (space, maxdiff, offwin))
         if not res.ok:
             st = res.error_trace[0][1] if res.error_trace else {}
-            ck.violation("model:SimpleFont:" + str(res.violated),
+            report(ck, "model:SimpleFont:" + str(res.violated),
                          "TLC: %s violated on SimpleFont.tla (%s)" % (res.violated, st.get("font", "?")[:300]),
                          {"tlc": res.error_text[:3000]})
             continue
@@ -493,11 +493,11 @@ def direction_a_fonts(ck, dev, jobs, futures, ppool):
                 for key, what, detail in findings:
                     if key.startswith("dev:"):
                         devhits[key] = devhits.get(key, 0) + 1
-                    ck.violation(key, "%s [font: %s]" % (what, font_summary(f)), {"kind": "font", "rec": rec, "detail": detail})
+                    report(ck, key, "%s [font: %s]" % (what, font_summary(f)), {"kind": "font", "rec": rec, "detail": detail})
                 nontriv = bool(f["diff"]) or any(t != "none" for t in f["tu"]) or bool(f["ent"]) or bool(f["widths"]) \
                     or f["kind"] == "Std14"
                 ck.case(256, ("F", json.dumps(f, sort_keys=True), offwin) if nontriv else None)
-                if k % 900 == 5:
+                if k % 900 == 5 and len(ck.samples) < 6:
                     ck.sample({"font_dictionary_model": f, "window_at_byte": rec["off"],
                                "model_text_of_window": [t["k"] + ":" + (t["a"] or str(t["n"])) for t in rec["ti"]],
                                "real_text_of_first_window_codes": sample_texts, "findings": [x[0] for x in findings]})
@@ -556,7 +556,7 @@ def direction_a_cache(ck):
     res = run_tlc(os.path.join(FONT, "MC_FontCache.tla"), cfg2, emit=emit, coverage=True, workers=2, timeout=600)
     ck.add_tlc(res, "FontCache: 2 pages x 2 names x {2 objects, 2 inline} x caching on/off")
     if not res.ok:
-        ck.violation("model:FontCache:" + str(res.violated), "TLC: %s violated on FontCache.tla" % res.violated,
+        report(ck, "model:FontCache:" + str(res.violated), "TLC: %s violated on FontCache.tla" % res.violated,
                      {"tlc": res.error_text[:3000]})
         return
     require_coverage(res, ["AHit", "ACreate", "AInline"])
@@ -573,7 +573,7 @@ def direction_a_cache(ck):
             ok = len(got) == len(exp) and all(g[0] == e[0] and close(g[1], e[1]) for g, e in zip(got, exp))
             ck.case(len(exp), ("C", json.dumps(r["bind"]), r["caching"], p) if len(set(pg.values())) > 1 or p else None)
             if not ok:
-                ck.violation("get_font-cache", "page %d of a document binding %s (caching=%s): glyphs %r, expected %r"
+                report(ck, "get_font-cache", "page %d of a document binding %s (caching=%s): glyphs %r, expected %r"
                              % (p + 1, r["bind"], r["caching"], got, exp), {"kind": "cache", "rec": r})
         if n % 200 == 3:
             ck.sample({"cache_scenario": r["bind"], "caching": r["caching"], "fonts_handed_out": r["out"]})
@@ -627,7 +627,7 @@ def direction_b(ck, dev, ppool):
                     cur = e["v"]
                 else:
                     if not e["ok"] and 0 <= cur < 256 and tr["base"][cur] and not tr["codes"][cur]["hastu"]:
-                        ck.violation("dev:DiffKeepsBase", "sample font %s: Differences name /%s (no Unicode value) at code %d "
+                        report(ck, "dev:DiffKeepsBase", "sample font %s: Differences name /%s (no Unicode value) at code %d "
                                      "shows base-encoding text %r" % (tr["origin"], e.get("name"), cur,
                                                                       "".join(map(chr, tr["base"][cur]))),
                                      {"kind": "sample", "origin": tr["origin"]})
@@ -666,7 +666,7 @@ def validate_font_traces(ck, traces, dev, label="trace validation"):
         what = {"start": "malformed record", "diff": "the recorded get_encoding table is not the Differences overlay of the base table",
                 "codes": "to_unichr/char_width event of code %d breaks the precedence / width rule: %s"
                          % (k, json.dumps(tr["codes"][k]) if k < 256 else "?")}.get(ph, ph)
-        ck.violation("trace-rejected:" + ph, "recorded font trace of %s (%s) is not a behaviour of SimpleFontTrace: %s"
+        report(ck, "trace-rejected:" + ph, "recorded font trace of %s (%s) is not a behaviour of SimpleFontTrace: %s"
                      % (tr["origin"], tr["kind"], what), {"kind": "trace", "origin": tr["origin"], "phase": ph, "index": k})
         todo = todo[t:]
         if rejected >= 3 and todo:
@@ -701,6 +701,15 @@ def table_data_check(ck):
 
 
 # =============================================================================================== entry points
+def report(ck, key, what, case=None):
+    """ck.violation with a cap: every unknown violation writes a replay file; a badly broken tree yields tens of
+    thousands of them, so after 60 only a counter is kept (the verdict is already decided)"""
+    if ck.is_known(key) or len(ck.violations) < 60:
+        return ck.violation(key, what, case)
+    ck.extra["violations_beyond_the_first_60"] = ck.extra.get("violations_beyond_the_first_60", 0) + 1
+    return True
+
+
 def quiet():
     from ..realise.fontpdf import quiet as q
     q()
